@@ -28,6 +28,46 @@ CLAIMS = {
         ref='DESIGN.md section 3, C18'),
 }
 
+CLAIMS.update({
+    'C02': dict(
+        technique='partial evaluation of the matrix/BSF converters on an abstract 4-qubit code; evaluation of the '
+                  'CSS block selectors on an asymmetric abstract check matrix; taint search for hash-ordered '
+                  'iteration in all order-defining functions',
+        text='Partial claim. Decides: rows of the parity-check matrix are the BSF image of get_stabilizer in '
+             'coordinate order (X->i, Z->n+i, Y->both, mod 2); to_bsf/from_bsf are inverse on dense and sparse '
+             'rows; x/z row masks, Hx/Hz, syndrome parts and is_css use the right block and mask (asymmetric '
+             'abstract matrix, so swaps invisible on symmetric codes show); no hash-ordered container of strings '
+             'feeds qubit/stabilizer/logical order in the base class or any of the 16 code classes. Not decided: '
+             'coordinates distinct/disjoint, supports non-empty, arbitrary user subclasses.',
+        note=TRUST + 'MiniCSR models the scipy.sparse operations used (slicing, boolean row selection, getnnz, '
+                     'nonzero, .data %= 2). Sets of ints/int-tuples are process independent in CPython.',
+        ref='DESIGN.md section 3, C02'),
+    'C03': dict(
+        technique='abstract interpretation of bs_prod on symbolic GF(2)-polynomial matrices (all shape and '
+                  'representation combinations); constant folding of every Pauli converter over the finite '
+                  'Pauli domain',
+        text='Partial claim. Decides: every entry of bs_prod(a,b) equals sum_i a.x_i b.z_i + a.z_i b.x_i mod 2 as '
+             'a polynomial identity, for dense arrays, lists and sparse rows, 1-D and 2-D operands, including '
+             'overlaps >= 2 and equal arguments (so bilinearity, symmetry, omega(a,a)=0 and linearity of the '
+             'syndrome follow for all sizes); all 25 Pauli<->bits converter instances agree on I,X,Y,Z = '
+             '00,10,11,01; measure_syndrome is that product with H. Not decided: integer round trips, brank.',
+        note=TRUST + 'numpy dot/slicing/reshape semantics are used on symbolic object arrays; uint8 wrap '
+                     'preserves parity.',
+        ref='DESIGN.md section 3, C03'),
+    'C04': dict(
+        technique='truth-table enumeration of every success test by abstract interpretation with free boolean '
+                  'atoms; term normalisation of the two predicates; symbolic-array interpretation of the '
+                  'logical-effect layout',
+        text='Decides: is_success, run_once, the two test_decoder helpers and the splitting failure test are '
+             'exactly (in codespace) and not (logical error) (resp. its negation); in_codespace is "all syndrome '
+             'bits zero", is_logical_error "some effect bit set", on the same argument; get_effective_error and '
+             'logical_errors lay out [X-effects | Z-effects] with X-effect = product with logicals_z for k=1,2,3 '
+             'and single/stacked errors (all three shape branches), and run_once passes the families in order. '
+             'Assumes code validity (C01) for "commutes with all logicals = product of generators".',
+        note=TRUST,
+        ref='DESIGN.md section 3, C04'),
+})
+
 NOT_APPLICABLE = {
     'C01': 'validity of a code (commutation, anticommutation pattern, GF(2) rank) is matrix algebra over every '
            'lattice size: a statement about runtime values with no clause visible in the shape of the code; the '
